@@ -1,4 +1,5 @@
 import Gbo.Props.C01
+import Gbo.Proofs.FillRoles
 /-
   C05 — the four operations are mutually consistent.
 -/
@@ -39,5 +40,46 @@ theorem C05_tables (isSubject otherInOut : Bool) :
   cases isSubject <;> cases otherInOut <;> decide
 
 example : opSem .union true false = true ∧ opSem .intersection true false = false := by decide
+
+/-- C05, first anchor (`fill_queue`): the operation enters the event queue only through the clipping
+    polygons' contour ids and exterior flags under `Difference`.  For the three other operations the queue,
+    the arena and both bounding boxes are the same object — so the sweeps of intersection, union and xor over
+    one operand pair start from one and the same state. -/
+theorem C05_fillQueue_same_for_symmetric_ops (a b : MPoly) (op op' : Op)
+    (h : op ≠ .difference) (h' : op' ≠ .difference) : fillQueue a b op = fillQueue a b op' := by
+  have hc : clipStep op = clipStep op' := by
+    funext acc p
+    cases op <;> cases op' <;> first | rfl | exact absurd rfl h | exact absurd rfl h'
+  unfold fillQueue
+  rw [hc]
+
+/-- … and under `Difference` the subject's part (events, queue prefix, bounding box) is still the same -/
+theorem C05_fillQueue_subject_part (a b : MPoly) (op op' : Op) :
+    (fillQueue a b op).sbbox = (fillQueue a b op').sbbox := rfl
+
+/-- C05, `fill_queue` for all four operations: the operation changes nothing but the contour ids and
+    exterior flags of the clipping polygons' events.  Points, left/right flags, partner links, operand
+    flags, the order of the events in the arena, the binary heap (as an array of indices) and both
+    bounding boxes are the same for every operation, `Difference` included: the four sweeps over one
+    operand pair start from the same geometry in the same queue order. -/
+theorem C05_fillQueue_same_geometry (a b : MPoly) (op op' : Op) :
+    (fillQueue a b op).fq.arena.map stripRole = (fillQueue a b op').fq.arena.map stripRole
+    ∧ (fillQueue a b op).fq.heap = (fillQueue a b op').fq.heap
+    ∧ (fillQueue a b op).sbbox = (fillQueue a b op').sbbox
+    ∧ (fillQueue a b op).cbbox = (fillQueue a b op').cbbox := by
+  have h := clipFold_sameGeo op op' b
+    ((a.foldl subjStep (0, {}, none)).1, (a.foldl subjStep (0, {}, none)).2.1, none)
+    ((a.foldl subjStep (0, {}, none)).1, (a.foldl subjStep (0, {}, none)).2.1, none) ⟨rfl, rfl, rfl⟩
+  exact ⟨h.1, h.2.1, rfl, h.2.2⟩
+
+/-- the stripped fields are the only ones the two orders never read: same stripped arena ⇒ same event order -/
+theorem C05_event_order_ignores_roles (a a' : Arena) (h : a.map stripRole = a'.map stripRole) :
+    evLe a = evLe a' := evLe_of_strip_eq h
+
+/-- the statement is not vacuous: without stripping, the arenas of union and difference differ -/
+theorem C05_fillQueue_roles_differ :
+    ((fillQueue [{ ext := [⟨0,0⟩, ⟨1,0⟩, ⟨0,1⟩, ⟨0,0⟩], holes := [] }] [{ ext := [⟨0,0⟩, ⟨2,0⟩, ⟨0,2⟩, ⟨0,0⟩], holes := [] }] .union).fq.arena[6]!).contourId
+    ≠ ((fillQueue [{ ext := [⟨0,0⟩, ⟨1,0⟩, ⟨0,1⟩, ⟨0,0⟩], holes := [] }] [{ ext := [⟨0,0⟩, ⟨2,0⟩, ⟨0,2⟩, ⟨0,0⟩], holes := [] }] .difference).fq.arena[6]!).contourId := by
+  decide +kernel
 
 end Gbo.Props
